@@ -181,7 +181,7 @@ def fix_calls(body, cname, spec, stats):
     address of reference arguments (R3)."""
     nparams = spec['nparams']; defaults = spec.get('defaults', []); refidx = spec.get('ref_idx', [])
     self_arg = spec.get('self_arg')
-    pat = re.compile(r'(?<![\w.>])' + re.escape(cname) + r'\s*\(')
+    pat = re.compile(r'(?<![\w.])(?<!->)' + re.escape(cname) + r'\s*\(')
     pos = 0
     while True:
         m = pat.search(body, pos)
@@ -345,15 +345,15 @@ def extract_function(repo, fn, unit_renames, callees):
     # renames (unit-level then function-level); identifiers not preceded by . -> or word char
     ren = dict(unit_renames); ren.update(fn.get('rename', {}))
     for a, b in ren.items():
-        body, n = re.subn(r'(?<![\w.>])' + re.escape(a) + r'\b(?!\s*::)', b, body)
+        body, n = re.subn(r'(?<![\w.])(?<!->)' + re.escape(a) + r'\b(?!\s*::)', b, body)
         if n: stats['R1.rename ' + a] = n
     # members
     for mname in fn.get('members', []):
-        body, n = re.subn(r'(?<![\w.>])' + re.escape(mname) + r'\b', 'self->' + mname, body)
+        body, n = re.subn(r'(?<![\w.])(?<!->)' + re.escape(mname) + r'\b', 'self->' + mname, body)
         if n: stats['R1.member ' + mname] = n
     # reference parameters / locals
     for r in fn.get('refs', []):
-        body, n = re.subn(r'(?<![\w.>])' + re.escape(r) + r'\b', '(*' + r + ')', body)
+        body, n = re.subn(r'(?<![\w.])(?<!->)' + re.escape(r) + r'\b', '(*' + r + ')', body)
         if n == 0:
             raise ExtractionDrift("%s: reference parameter %s unused" % (what, r))
         stats['R3.ref ' + r] = n
@@ -363,7 +363,7 @@ def extract_function(repo, fn, unit_renames, callees):
     # R6: propagate exceptions out of calls to callees that may throw
     for cname in fn.get('throwing_callees', []):
         pos = 0
-        pat = re.compile(r'(?<![\w.>])' + re.escape(cname) + r'\s*\(')
+        pat = re.compile(r'(?<![\w.])(?<!->)' + re.escape(cname) + r'\s*\(')
         while True:
             m = pat.search(body, pos)
             if not m: break
